@@ -64,7 +64,7 @@ Definition side (w : bool) : list (peer * resp) :=
 
 Definition local_of (cl : client) : list (peer * val) :=
   match cl with
-  | CFullrt => local_fullrt self (c_local c)
+  | CFullrt => local_fullrt vvalid the_key self (c_local c)
   | _ => local_std vvalid the_key self (c_local c)
   end.
 
@@ -183,6 +183,17 @@ Definition supplied_all : list val := supplied true ++ supplied false.
 Definition sel_total_on (l : list val) : bool :=
   forallb (fun a => forallb (fun b => match vsel the_key a b with Some _ => true | None => false end) l) l.
 
+(* the values the final one must be at least as good as.  dual.GetValue is
+   specified (C15) to return the WAN result when the WAN search succeeds and
+   otherwise the LAN result, so it is only compared with the half it came from;
+   everything else (single-client searches, the dual merged stream) with
+   everything consumed. *)
+Definition best_scope : list val :=
+  match c_client c, c_op c with
+  | CDual, OGet => match supplied true with [] => supplied false | w => w end
+  | _, _ => supplied_all
+  end.
+
 Definition final_obs : option val :=
   match c_op c with
   | OSearch => get_value (c_stream c)
@@ -206,7 +217,7 @@ Definition monitor : bool :=
       && match final_obs with
          | Some f =>
              vvalid the_key f
-             && (if sel_total_on supplied_all then forallb (ge_b f) supplied_all else true)
+             && (if sel_total_on supplied_all then forallb (ge_b f) best_scope else true)
          | None => match supplied_all with [] => true | _ => false end
          end
   end.
